@@ -5,7 +5,7 @@ EXTENDS Cors, Json, TLC
 VARIABLE cfg
 O1 == "https://o1.example"   O2 == "https://o2.example"
 OriginsC == {<<>>, <<"*">>, <<O1>>, <<O1, O2>>, <<"*", O1>>}
-AllowC   == {<<>>, <<"*">>, <<"Content-Type">>, <<"Content-Type", "X-A">>, <<"Content-Type", "X-CSRF-Token", "X-Client-Id", "content-length">>}
+AllowC   == {<<>>, <<"*">>, <<"*", "X-A">>, <<"Content-Type">>, <<"Content-Type", "X-A">>, <<"Content-Type", "X-CSRF-Token", "X-Client-Id", "content-length">>}
 ExposeC  == {<<>>, <<"E1", "E2">>}
 MaxAgeC  == {0, -1, 50, -2}
 CorsCfgs == {[on |-> TRUE, origins |-> o, allow |-> a, expose |-> e, maxage |-> m, cred |-> c] :
@@ -41,7 +41,15 @@ DynOps == BaseOps \o <<Pre("/a", "POST"), Pre("/a", "DELETE"), Hd("/a", <<"DELET
                         RmO("/c", <<"OPTIONS", "POST">>), Pre("/c", "POST"), Rq("POST", "/c", O1, "", "-")>>
 DynCase == [fam |-> "router", battery |-> "none", ops |-> DynOps, reqs |-> {},
             cfg |-> [name |-> "r", trace |-> FALSE, lock |-> FALSE, icpt |-> <<>>, domain |-> "", cors |-> cfg]]
-Emit == PrintT("CASE " \o ToJson(CaseOf)) /\ PrintT("CASE " \o ToJson(DynCase))
+ReqsSmall == {Rq(m, p, o, rm, rh) : m \in {"GET", "OPTIONS", "PUT"}, p \in {"/a", "/missing", "*"}, o \in {"", O1, "https://evil.example"},
+                                    rm \in {"", "POST", "DELETE"}, rh \in {"-", "content-type", "X-Evil", " X-A,content-TYPE "}}
+\* a third case for some configurations: an EARLIER WithCORS option (allow everything) precedes the configuration in the
+\* option list; options apply in order, so the reply is the one the LAST option prescribes
+AllowAll == [on |-> TRUE, origins |-> <<"*">>, allow |-> <<"*">>, expose |-> <<"E9">>, maxage |-> 7, cred |-> FALSE]
+Stacked == cfg.on /\ cfg.maxage = 0 /\ ~cfg.cred /\ cfg.expose = <<>> /\ cfg.origins \in {<<>>, <<O1>>}
+PreCase == [fam |-> "router", battery |-> "none", ops |-> BaseOps, reqs |-> ReqsSmall,
+            cfg |-> [name |-> "r", trace |-> FALSE, lock |-> FALSE, icpt |-> <<>>, domain |-> "", cors |-> cfg, corspre |-> AllowAll]]
+Emit == PrintT("CASE " \o ToJson(CaseOf)) /\ PrintT("CASE " \o ToJson(DynCase)) /\ (Stacked => PrintT("CASE " \o ToJson(PreCase)))
 
 \* design-level sanity: an ideal reply built from the decision table satisfies both properties,
 \* and C12's grant implies C11's permission (the two statements are consistent)
@@ -63,8 +71,6 @@ Ideal(c, q, served, allow) ==
    acma |-> IF g /\ pre /\ c.maxage # 0 THEN <<ToString(c.maxage)>> ELSE <<>>,
    vary |-> (IF g /\ ~AnyOrigin(c) THEN <<"Origin">> ELSE <<>>) \o (IF g /\ pre THEN <<"Access-Control-Request-Method">> ELSE <<>>)
             \o (IF g /\ pre /\ Len(c.allow) > 0 THEN <<"Access-Control-Request-Headers">> ELSE <<>>)]
-ReqsSmall == {Rq(m, p, o, rm, rh) : m \in {"GET", "OPTIONS", "PUT"}, p \in {"/a", "/missing", "*"}, o \in {"", O1, "https://evil.example"},
-                                    rm \in {"", "POST", "DELETE"}, rh \in {"-", "content-type", "X-Evil", " X-A,content-TYPE "}}
 Consistent(Rs) ==
   ConfigBad(cfg) \/ \A r \in Rs :
      LET q == ReqOf(r)  sv == Served(q.method, q.path)  al == Allow(q.path)  id == Ideal(cfg, q, sv, al)
